@@ -73,7 +73,7 @@ Query(fn, how) ==
      /\ lastObj' = obj
      /\ lastShift' = IF hit THEN lastShift ELSE shift
      /\ frame' = [table |-> ~Dev.QueryTouchesTable,
-                  args  |-> ~(Dev.QueryWritesArgument /\ how \in {"buffer", "copy", "view"}),
+                  args  |-> ~(Dev.QueryWritesArgument /\ how \in {"buffer", "copy", "view", "intarray", "0d", "strided"}),
                   held  |-> ~(Dev.ResultBufferReused /\ ret.op = "query")]
      /\ UNCHANGED shift
 
